@@ -10,6 +10,7 @@ import (
 	"sort"
 	"strconv"
 	"strings"
+	"sync"
 	"time"
 
 	dbm "github.com/tendermint/tm-db"
@@ -17,6 +18,8 @@ import (
 	abci "github.com/tendermint/tendermint/abci/types"
 	"github.com/tendermint/tendermint/consensus"
 	"github.com/tendermint/tendermint/proxy"
+	rpccore "github.com/tendermint/tendermint/rpc/core"
+	rpctypes "github.com/tendermint/tendermint/rpc/jsonrpc/types"
 	bstore "github.com/tendermint/tendermint/store"
 	"github.com/tendermint/tendermint/crypto"
 	"github.com/tendermint/tendermint/crypto/ed25519"
@@ -204,6 +207,7 @@ type rbStore struct {
 }
 
 func (b rbStore) Height() int64 { return b.h }
+func (b rbStore) Base() int64   { return b.ih }
 func (b rbStore) LoadBlockMeta(h int64) *types.BlockMeta {
 	if h < b.ih || h > b.h {
 		return nil
@@ -211,7 +215,24 @@ func (b rbStore) LoadBlockMeta(h int64) *types.BlockMeta {
 	return &types.BlockMeta{Header: types.Header{Height: h, Time: time.Unix(1+h, 0).UTC()}}
 }
 
+// staleCS: the consensus state as rpc/core sees it; it may lag behind the stores (block sync, or
+// the window between SaveBlock and updateToState).
+type staleCS struct {
+	rpccore.Consensus
+	st sm.State
+}
+
+func (c staleCS) GetState() sm.State { return c.st }
+func (c staleCS) GetValidators() (int64, []*types.Validator) {
+	return c.st.LastBlockHeight, c.st.Validators.Validators
+}
+func (c staleCS) GetLastHeight() int64 { return c.st.LastBlockHeight }
+
+// rpc/core keeps its environment in a package variable: calls are serialised
+var rpcMu sync.Mutex
+
 type world struct {
+	hist  []sm.State // states since the last (re)start of the store, newest last
 	cur   *types.ValidatorSet
 	db    dbm.DB
 	store sm.Store
@@ -334,10 +355,57 @@ func (w *world) op(line string) string {
 				return "err-save"
 			}
 			w.db, w.store, w.st = db, store, &st
+			w.hist = []sm.State{st}
 			return "ok " + showSet(st.Validators) + " / " + showSet(st.NextValidators)
 		})
 		if strings.HasPrefix(r, "PANIC:") {
 			return "err-" + errClass(r, l)
+		}
+		return r
+	case "rpcvals":
+		if w.st == nil {
+			return "bad-op"
+		}
+		syncing, err1 := strconv.Atoi(m["sync"])
+		lag, err2 := strconv.Atoi(m["lag"])
+		if err1 != nil || err2 != nil || syncing < 0 || syncing > 1 || lag < 0 || m["h"] == "" {
+			return "bad-op"
+		}
+		var hp *int64
+		if m["h"] != "-" {
+			x, err := strconv.ParseInt(m["h"], 10, 64)
+			if err != nil {
+				return "bad-op"
+			}
+			hp = &x
+		}
+		stale := *w.st
+		if i := len(w.hist) - 1 - lag; len(w.hist) > 0 {
+			if i < 0 {
+				i = 0
+			}
+			stale = w.hist[i]
+		}
+		r := try(func() string {
+			rpcMu.Lock()
+			defer rpcMu.Unlock()
+			rpccore.SetEnvironment(&rpccore.Environment{
+				StateStore:       w.store,
+				BlockStore:       rbStore{ih: w.st.InitialHeight, h: w.st.LastBlockHeight},
+				ConsensusState:   staleCS{st: stale},
+				ConsensusReactor: consensus.VerifReactorWaitSync(syncing == 1),
+			})
+			res, err := rpccore.Validators(&rpctypes.Context{}, hp, nil, nil)
+			if err != nil {
+				if strings.Contains(err.Error(), "height") && !strings.Contains(err.Error(), "validator") {
+					return "err-height"
+				}
+				return "err-load"
+			}
+			return fmt.Sprintf("ok h=%d %s", res.BlockHeight, showVals(res.Validators))
+		})
+		if strings.HasPrefix(r, "PANIC:") {
+			return "panic"
 		}
 		return r
 	case "handshake":
@@ -403,6 +471,7 @@ func (w *world) op(line string) string {
 				w.db.Close()
 			}
 			w.db, w.store, w.st = db, store, &st
+			w.hist = []sm.State{st}
 			return "ok " + showSet(st.Validators) + " / " + showSet(st.NextValidators)
 		})
 		if strings.HasPrefix(r, "PANIC:") {
@@ -432,6 +501,9 @@ func (w *world) op(line string) string {
 				return "err-load-state"
 			}
 			w.st = &st
+			if len(w.hist) > 1 {
+				w.hist = w.hist[:len(w.hist)-1]
+			}
 			return fmt.Sprintf("ok h=%d lhc=%d cur=%s next=%s", st.LastBlockHeight, st.LastHeightValidatorsChanged, showSet(st.Validators), showSet(st.NextValidators))
 		})
 		if strings.HasPrefix(r, "PANIC:") {
@@ -455,6 +527,7 @@ func (w *world) op(line string) string {
 			}
 			w.db.Close()
 			w.db, w.store, w.st = db, store, &st2
+			w.hist = []sm.State{st2}
 			return fmt.Sprintf("ok base=%d", st2.LastBlockHeight)
 		})
 	case "block":
@@ -482,6 +555,7 @@ func (w *world) op(line string) string {
 				return "err-save"
 			}
 			w.st = &st2
+			w.hist = append(w.hist, st2)
 			return fmt.Sprintf("ok h=%d lhc=%d next=%s", h, st2.LastHeightValidatorsChanged, showSet(st2.NextValidators))
 		})
 		if strings.HasPrefix(r, "PANIC:") {
@@ -1099,6 +1173,28 @@ func oracle(c core.Case, out []string) []core.Finding {
 				}
 			}
 			cur = s
+		case "rpcvals":
+			// the set reported for height h is the one that decides h
+			f := strings.Fields(o)
+			if len(f) != 3 || f[0] != "ok" {
+				continue
+			}
+			L, err := strconv.ParseInt(strings.TrimPrefix(f[1], "h="), 10, 64)
+			got, ok := parseSetOut(f[2])
+			want := truth[L]
+			if err != nil || !ok || want == nil || L < base || L > tip {
+				continue
+			}
+			if taintFrom > 0 && L >= taintFrom && (taintTo == 0 || L < taintTo) {
+				continue // judged by the load ops (known Rollback finding)
+			}
+			if !sameVals(want, got, true) {
+				fp := "rpc.Validators.reported-height-has-another-set"
+				if sameVals(want, got, false) {
+					fp = "rpc.Validators.reported-height-has-other-priorities"
+				}
+				fs = append(fs, core.Finding{Fingerprint: fp, Desc: fmt.Sprintf("/validators (%s) answers height %d with %s, the chain had %s", op, L, got, want)})
+			}
 		case "rollback":
 			if !strings.HasPrefix(o, "ok ") {
 				continue
